@@ -34,9 +34,6 @@ func exec(op string) string {
 	if len(w) == 0 {
 		return "bad-op"
 	}
-	if len(w) == 2 && w[0] == "mode" {
-		return "mode:" + w[1]
-	}
 	for _, p := range parts {
 		if a, mine := p.exec(w); mine {
 			return a
@@ -64,11 +61,6 @@ func main() {
 	seed := vh.EnvSeed()
 	out := vh.NewOut(path)
 	known := map[string]int{}
-	if os.Getenv("VERIF_C05_FIXED") == "1" {
-		// the models answer for the code WITH props/C05.fix-*.diff applied (used to validate the fix
-		// diffs + Model/*Fixed.lean against a patched copy of the repo)
-		out.Case("mode fixed", "mode:fixed", "mode", false)
-	}
 	for i, p := range parts {
 		// one independent stream per part, all derived from VERIF_SEED
 		r := vh.NewRng(seed*1000003 + uint64(i))
@@ -80,6 +72,7 @@ func main() {
 		})
 	}
 	extra := map[string]interface{}{"crash_answers_by_site": known, "skipped_huge_pk_count": c05frame.Skipped,
+		"alloc_rows_max_ratio_permille": c05frame.AllocStats, "alloc_rows_skipped_zero_columns": c05frame.AllocSkippedZeroCols,
 		"subprocess_notes": c05disp.Notes}
 	for k, v := range c05val.Stats() {
 		extra["val_"+k] = v
